@@ -39,6 +39,7 @@ type c10Tx struct {
 	program string
 	tables  []string // pre-existing tables touched
 	links   []string // those of them that are symbolic links to store/<name>
+	stale   []string // those of them next to which a stale temp file lies
 }
 
 // c10Link turns the named tables of a freshly copied directory into symbolic links to store/<name>.
@@ -47,6 +48,13 @@ func c10Link(dir string, links []string) {
 		_ = os.MkdirAll(filepath.Join(dir, "store"), 0755)
 		_ = os.Rename(filepath.Join(dir, n), filepath.Join(dir, "store", n))
 		_ = os.Symlink(filepath.Join("store", n), filepath.Join(dir, n))
+	}
+}
+
+// c10Stale leaves the temp file of an earlier, killed run next to the named tables (the user removed only the lock file).
+func c10Stale(dir string, names []string) {
+	for _, n := range names {
+		_ = os.WriteFile(filepath.Join(dir, "."+n+".temp"), []byte("half written by a run that was killed\n"), 0600)
 	}
 }
 
@@ -110,18 +118,34 @@ func genC10Tx(r *core.Rng, forceLink bool) c10Tx {
 func c10Case(w *core.Worker, i int) {
 	r := w.Rng(i, "")
 	tx := genC10Tx(r, i%4 == 1)
+	if i%4 == 3 {
+		tx.stale = tx.tables[:1]
+	}
 	base := core.FreshDir(w.Work, "base")
 	core.WriteFiles(base, tx.files)
 	txDigest := core.Digest(tx.program, fmt.Sprint(len(tx.files)))
 	run := func(dir string, env []string, prefix []string) core.ProcResult {
-		return core.RunProc(core.ProcOpts{Dir: dir, Args: csvqArgs("-q", tx.program), Env: env, Prefix: prefix, Timeout: 120 * time.Second})
+		return core.RunProc(core.ProcOpts{Dir: dir, Args: csvqArgs("-q", "--wait-timeout", "1", tx.program), Env: env, Prefix: prefix, Timeout: 120 * time.Second})
 	}
 	// clean run → new bytes
 	clean := filepath.Join(w.Work, "clean")
 	_ = os.RemoveAll(clean)
 	copyDir(base, clean)
 	c10Link(clean, tx.links)
+	c10Stale(clean, tx.stale)
 	res := run(clean, nil, nil)
+	if res.Code != 0 && len(tx.stale) > 0 && !strings.Contains(res.Stderr, "Fatal Error") {
+		// refusing to touch a table next to a stale temp file is a legitimate answer — then nothing may have changed;
+		// a csvq that goes ahead instead is walked through the crash points below like any other transaction
+		for _, name := range tx.tables {
+			if b, _ := c10Read(clean, name); !bytes.Equal(b, []byte(tx.files[name])) {
+				w.Violation("refused-but-changed", fmt.Sprintf("the transaction was refused (exit %d) next to a stale temp file but %s changed", res.Code, name), c10Replay{Files: small(tx.files), Program: tx.program})
+			}
+		}
+		w.Count("transactions_refused_next_to_a_stale_temp_file", 1)
+		w.Case(core.Digest(tx.program, "stale"), true)
+		return
+	}
 	if res.Code != 0 {
 		if strings.Contains(res.Stderr, "Fatal Error") || strings.Contains(res.Stderr, "panic:") {
 			w.Violation("clean-run-internal-failure", fmt.Sprintf("the transaction itself failed internally: %s", res), c10Replay{Files: small(tx.files), Links: tx.links, Program: tx.program})
@@ -138,7 +162,13 @@ func c10Case(w *core.Worker, i int) {
 		newData[name], _ = c10Read(clean, name)
 	}
 	for _, n := range newSnap.Names() {
-		if core.IsControlFile(n) {
+		planted := false
+		for _, st := range tx.stale {
+			if n == "."+st+".temp" && string(newSnap[n].Data) == "half written by a run that was killed\n" {
+				planted = true // the stale file this case put there itself, untouched: not a leftover of this run
+			}
+		}
+		if core.IsControlFile(n) && !planted {
 			w.Violation("leftover-after-clean-run", "control file left after a successful run: "+n, c10Replay{Files: small(tx.files), Links: tx.links, Program: tx.program})
 		}
 	}
@@ -147,6 +177,7 @@ func c10Case(w *core.Worker, i int) {
 	_ = os.RemoveAll(tr)
 	copyDir(base, tr)
 	c10Link(tr, tx.links)
+	c10Stale(tr, tx.stale)
 	tracePath := filepath.Join(w.Work, "trace.log")
 	_ = os.Remove(tracePath)
 	res = run(tr, []string{"VERIF_TRACE=" + tracePath}, nil)
@@ -197,6 +228,7 @@ func c10Case(w *core.Worker, i int) {
 		_ = os.RemoveAll(d)
 		copyDir(base, d)
 		c10Link(d, tx.links)
+	c10Stale(d, tx.stale)
 		p := run(d, []string{"VERIF_CRASH_AT=" + at}, nil)
 		if p.Signal != 9 {
 			w.Inconclusive(fmt.Sprintf("crash at %s did not kill the process (%s)", at, p))
@@ -214,7 +246,7 @@ func c10Case(w *core.Worker, i int) {
 	}
 
 	// syscall walk with strace (thorough, first 20 transactions)
-	if (w.Tier == "thorough" && i < 20) || i < 3 {
+	if (w.Tier == "thorough" && i < 20) || i < 3 || len(tx.stale) > 0 {
 		c10Syscalls(w, tx, base, run, judge, txDigest)
 	}
 	if i < 3 {
@@ -251,6 +283,7 @@ func c10Syscalls(w *core.Worker, tx c10Tx, base string, run func(string, []strin
 	_ = os.RemoveAll(cnt)
 	copyDir(base, cnt)
 	c10Link(cnt, tx.links)
+	c10Stale(cnt, tx.stale)
 	out := filepath.Join(w.Work, "strace.cnt")
 	p := run(cnt, []string{"GOMAXPROCS=1"}, []string{"strace", "-f", "-c", "-o", out, "-e", "trace=" + strings.Join(calls, ",")})
 	if p.Code != 0 {
@@ -283,6 +316,7 @@ func c10Syscalls(w *core.Worker, tx c10Tx, base string, run func(string, []strin
 			_ = os.RemoveAll(d)
 			copyDir(base, d)
 			c10Link(d, tx.links)
+	c10Stale(d, tx.stale)
 			at := fmt.Sprintf("syscall:%s#%d", sc, n)
 			p := run(d, []string{"GOMAXPROCS=1"}, []string{"strace", "-f", "-o", "/dev/null", "-e", "trace=" + sc, "-e", fmt.Sprintf("inject=%s:signal=SIGKILL:when=%d", sc, n)})
 			if p.Signal != 9 && p.Code != 137 && p.Code != -1 {
